@@ -3,7 +3,7 @@ calls, fresh instances, fresh processes under different PYTHONHASHSEED values)."
 import os, sys, json, subprocess
 from ..core import STEPS, digest, canon_tree
 from ..common import build, call, basic_tokens, named_types
-from ..gram import RefGrammar, print_grammar, duplicate_empty_alternatives, colliding_optionals
+from ..gram import RefGrammar, print_grammar, duplicate_empty_alternatives, colliding_optionals, has_directly_empty_alternative
 from .. import ref as R, gen
 from .c01 import model as c01_model
 
@@ -70,7 +70,7 @@ def run_grammar(ctx, G, family, lexers, inputs, modes=('normal', 'invert', None)
     rg = RefGrammar(G)
     cyclic = rg.is_cyclic()
     named = named_types(rg)
-    exact = not cyclic and not rg.has_direct_empty_alt()
+    exact = not cyclic and not has_directly_empty_alternative(G)
     even = any(len(r['alts']) % 2 == 0 and r.get('prio') for r in G['rules'])
     tprio = any(t.get('prio') for t in G.get('terms', []))
     opts = {'keep_all_tokens': True, 'maybe_placeholders': True}
@@ -101,13 +101,21 @@ def run_grammar(ctx, G, family, lexers, inputs, modes=('normal', 'invert', None)
                 ctx.count('feature:repeat-call')
                 if out2 != out:
                     ctx.violation('differs-on-second-call', case, {'first': out, 'second': out2})
-                if wi % 4 == 0:
+                if wi % 2 == 0 or family == 'nullable-ties':
                     if l2 is None:
                         st2, l2 = build(ctx, text, **kw)
+                        KEEP.append(l2)           # earlier instances stay alive: new objects get new addresses
+                        del KEEP[:-8]
                     out3 = call(ctx, 'parse', l2.parse, w)
                     ctx.count('feature:fresh-instance')
                     if out3 != out:
                         ctx.violation('differs-on-fresh-instance', case, {'first': out, 'fresh': out3})
+                    if family == 'nullable-ties':
+                        st3, l3 = build(ctx, text, **kw)
+                        out4 = call(ctx, 'parse', l3.parse, w) if st3 == 'ok' else out
+                        ctx.count('feature:fresh-instance')
+                        if out4 != out:
+                            ctx.violation('differs-on-fresh-instance', case, {'first': out, 'fresh': out4})
                 if cyclic:
                     ctx.count('cyclic-determinism-only')
                     continue
@@ -159,6 +167,9 @@ def run_grammar(ctx, G, family, lexers, inputs, modes=('normal', 'invert', None)
         ctx.sample({'grammar': text, 'family': family, 'inputs': inputs[:5]})
 
 
+KEEP = []
+
+
 def prio_regex_grammar(rng):
     G = gen.regex_grammar(rng)
     for t in G['terms']:
@@ -207,11 +218,18 @@ def run_batch(ctx):
             if i % 4 == 0 or not RefGrammar(G).is_cyclic():
                 break
         run_grammar(ctx, G, 'bnf-tiny-prio', ('basic', 'dynamic') if i % 2 else ('dynamic_complete',), gen.all_strings(G['alphabet'], 4, cap=31, rng=rng))
+        if i % 2 == 1:
+            # no priorities at all, many empty rules: every choice is a tie, so only the tie-breaks decide (determinism)
+            G = gen.bnf_tiny(rng, max_ts=2, prios=False, p_empty=2)
+            run_grammar(ctx, G, 'nullable-ties', ('basic', 'dynamic'), gen.all_strings(G['alphabet'], 4, cap=20, rng=rng), ('normal',))
         if i % 2 == 0:
             G = prio_regex_grammar(rng)
             run_grammar(ctx, G, 'regex-prio', ('dynamic',), gen.random_strings(rng, G['alphabet'], 25, 6), ('normal', 'invert'))
         if i % 3 == 0:
             G = gen.ebnf(rng, p_rec=0.3, n_rules=rng.randint(2, 4), allow_prio=True, allow_templates=False)
+            for r in G['rules']:
+                if r['prio'] is None and rng.random() < 0.5:
+                    r['prio'] = rng.choice([-2, -1, 1, 2, 3])
             rg = RefGrammar(G)
             ex = gen.term_examples(rg, G)
             ins = set()
